@@ -562,7 +562,7 @@ Lemma shr_do_media h c x s to mk stream media :
 Proof.
   intros Hs. unfold do_media. destruct to as [i|u| |]; try apply shr_refl.
   destruct (N.eqb mk 0).
-  - destruct (negb (offer_allowed (s_perms s) stream media)); [apply shr_refl|].
+  - destruct (negb (offer_allowed (s_perms s) stream _)); [apply shr_refl|].
     destruct (aget (s_pubs s) stream); [|apply shr_start_create].
     eapply shr_trans; [|apply shr_send_session]. apply shr_put with s; [exact Hs|now apply keeps_same].
   - destruct (N.eqb mk 1).
@@ -821,15 +821,7 @@ Lemma pair_fst_snd {A B} (p : A * B) : p = (fst p, snd p).
 Proof. destruct p; reflexivity. Qed.
 
 (* folds *)
-Lemma fold_acc_split (f : hub -> N -> hub * list out) l : forall hh oo,
-  fold_left (fun acc x => let '(hh, oo) := acc in let '(hh', oo') := f hh x in (hh', oo ++ oo')) l (hh, oo) =
-  (fst (fold_sessions hh l f), oo ++ snd (fold_sessions hh l f)).
-Proof.
-  induction l as [|x l IH]; intros hh oo.
-  - cbn. now rewrite app_nil_r.
-  - rewrite fold_sessions_cons. cbn [fold_left]. destruct (f hh x) as [h1 o1]. rewrite IH.
-    destruct (fold_sessions h1 l f) as [h2 o2]. cbn [fst snd]. now rewrite app_assoc.
-Qed.
+(* fold_acc_split: proofs/Hub_pending.v *)
 
 Lemma loc_fold_sessions (P : hub -> Prop) b oc (f : hub -> N -> hub * list out) l : forall h,
   P h -> (forall x, In x l -> bsid b h x) ->
@@ -1201,64 +1193,11 @@ Definition TI (h : hub) : Prop := Ten h /\ Bij h.
 Lemma ti_next h h' : TI h -> shr h h' -> Bij h' -> TI h'.
 Proof. intros [T _] S B. split; [eapply ten_shr; eauto|exact B]. Qed.
 
-Definition noconn (o : list out) : Prop := forall c m, ~ In (ToConn c m) o.
-Lemma noconn_nil : noconn [].
-Proof. intros c m []. Qed.
-Lemma noconn_app o1 o2 : noconn o1 -> noconn o2 -> noconn (o1 ++ o2).
-Proof. intros H1 H2 c m Hin. apply in_app_or in Hin as [Hin|Hin]; [eapply H1|eapply H2]; eauto. Qed.
-Lemma noconn_cons x o : (forall c m, x <> ToConn c m) -> noconn o -> noconn (x :: o).
-Proof. intros Hx Ho c m [E|Hin]; [eapply Hx; eauto|eapply Ho; eauto]. Qed.
-Lemma noconn_map {A} (f : A -> out) l : (forall a c m, f a <> ToConn c m) -> noconn (map f l).
-Proof. intros Hf c m Hin. apply in_map_iff in Hin as (a & E & _). eapply Hf; eauto. Qed.
+(* noconn and the noconn_* lemmas of the closing functions: proofs/Hub_pending.v *)
 Lemma noconn_ok b oc h o : noconn o -> outs_ok b oc h o.
 Proof. intros Hn c m Hin. exfalso. eapply Hn; eauto. Qed.
 Lemma loc_noconn b oc h r : Fr b oc h (fst r) -> noconn (snd r) -> Loc b oc h r.
 Proof. intros F Hn. split; [exact F|now apply noconn_ok]. Qed.
-
-Lemma noconn_close_tokens h toks : noconn (snd (close_tokens h toks)).
-Proof. unfold close_tokens. cbn [snd]. apply noconn_map. intros; discriminate. Qed.
-Lemma noconn_release_mcu h x : noconn (snd (release_mcu h x)).
-Proof. unfold release_mcu. destruct (get_sess h x); [apply noconn_close_tokens|apply noconn_nil]. Qed.
-Lemma noconn_revoke h x : noconn (snd (revoke h x)).
-Proof. unfold revoke. destruct (get_sess h x); [apply noconn_close_tokens|apply noconn_nil]. Qed.
-Lemma noconn_leave_call h x : noconn (snd (leave_call h x)).
-Proof.
-  unfold leave_call. destruct (get_sess h x) as [s|]; [|apply noconn_nil].
-  destruct (s_kind s); destruct (s_room s); try apply noconn_nil; apply noconn_release_mcu.
-Qed.
-Lemma noconn_leave_room h x n : noconn (snd (leave_room h x n)).
-Proof.
-  unfold leave_room. destruct (get_sess h x) as [s|]; [|apply noconn_nil].
-  destruct (s_room s) as [k|]; [|apply noconn_nil].
-  destruct (is_virtual (s_kind s)); [apply noconn_nil|].
-  match goal with |- context [release_mcu ?hh x] => pose proof (noconn_release_mcu hh x) as Hr; destruct (release_mcu hh x) as [h3 o2] end.
-  cbn [snd] in *. apply noconn_app; [|exact Hr].
-  destruct (n && negb (N.eqb (s_rs s) 0)); [apply noconn_cons; [intros; discriminate|apply noconn_nil]|apply noconn_nil].
-Qed.
-Lemma noconn_close_one h x : noconn (snd (close_one h x)).
-Proof.
-  unfold close_one. destruct (get_sess h x) as [s|]; [|apply noconn_nil].
-  pose proof (noconn_leave_room h x true) as H1. destruct (leave_room h x true) as [h1 o1].
-  pose proof (noconn_release_mcu h1 x) as H2. destruct (release_mcu h1 x) as [h2a o2a]. cbn [snd] in *.
-  assert (H3 : noconn (o2a ++ map (fun e => ToMcu (MFailed (fst e))) (filter (fun e => N.eqb (mp_owner (snd e)) x) (h_mcupending h2a)))).
-  { apply noconn_app; [exact H2|]. apply noconn_map. intros; discriminate. }
-  destruct (s_kind s); cbn [snd]; try (apply noconn_app; [exact H1|exact H3]).
-  apply noconn_app; [exact H1|]. apply noconn_app; [exact H3|].
-  destruct (s_room s); [apply noconn_cons; [intros; discriminate|apply noconn_nil]|apply noconn_nil].
-Qed.
-Lemma noconn_fold (f : hub -> N -> hub * list out) l : (forall hh x, noconn (snd (f hh x))) ->
-  forall h, noconn (snd (fold_sessions h l f)).
-Proof.
-  intros Hf. induction l as [|x l IH]; intros h; [apply noconn_nil|].
-  rewrite fold_sessions_cons. pose proof (Hf h x) as H1. destruct (f h x) as [h1 o1].
-  pose proof (IH h1) as H2. destruct (fold_sessions h1 l f) as [h2 o2]. cbn [snd] in *. now apply noconn_app.
-Qed.
-Lemma close_session_eq h x :
-  close_session h x = (fst (fold_sessions (fst (close_one h x)) (children h x) close_one),
-                       snd (close_one h x) ++ snd (fold_sessions (fst (close_one h x)) (children h x) close_one)).
-Proof. unfold close_session. destruct (close_one h x) as [h1 o1]. cbn [fst snd]. apply fold_acc_split. Qed.
-Lemma noconn_close_session h x : noconn (snd (close_session h x)).
-Proof. rewrite close_session_eq. cbn [snd]. apply noconn_app; [apply noconn_close_one|apply noconn_fold, noconn_close_one]. Qed.
 
 (* ------------------------------------------------------------------ frames of the functions that send nothing *)
 Lemma bsid_put b h x s' y : s_backend s' = b -> bsid b h y -> bsid b (put_sess h x s') y.
@@ -1991,7 +1930,7 @@ Proof.
   { intros e. split; [apply fr_refl|]. apply outs_ok_cons_own; [reflexivity|apply outs_ok_nil]. }
   destruct to as [i|u| |]; try apply loc_ret.
   destruct (N.eqb mk 0).
-  - destruct (negb (offer_allowed (s_perms s) stream media)); [apply Herr|].
+  - destruct (negb (offer_allowed (s_perms s) stream _)); [apply Herr|].
     destruct (aget (s_pubs s) stream).
     + match goal with |- context [put_sess h x ?s1] => set (s' := s1) end.
       assert (F1 : Fr b (Some c) h (put_sess h x s')) by (apply fr_put with s; auto).
@@ -2303,7 +2242,9 @@ Proof.
     assert (E5r : h_rooms h5 = h_rooms h) by (cbn; exact Er1).
     assert (E5b : h_bus h5 = h_bus h) by (cbn; exact Eb1).
     assert (E5c : h_conns h5 = aset (h_conns h1) c (mkconn (c_addr cn) (Some n) false)) by reflexivity.
-    cbn [fst]. split; [split|split].
+    match goal with |- context [if _ then _ else (h5, ?oo)] => set (outs5 := oo) end.
+    assert (S5 : TI h5 /\ Loc b (Some c) h (h5, outs5)).
+    { split; [split|split]; cbn [fst].
     + apply (ten_shr h); [apply TIh|]. apply (shr_aset h h5 n s s1); [exact E5s|exact E5r|exact En1|exact Hs|now apply keeps_same].
     + intros tid c' (t & Ht & Hc). unfold get_sess in Ht. rewrite E5s, aget_aset in Ht. unfold attached. rewrite E5c.
       destruct (N.eqb_spec tid n) as [->|Hne].
@@ -2318,7 +2259,16 @@ Proof.
     + cbn [snd]. apply outs_ok_app.
       * intros c' m Hin. right. exists n, s. split; [exact Hs|]. split; [exact Hb|]. now apply (Eo1 c' m).
       * apply own_outs_ok. intros c' m [E|Hin]; [now injection E as <- _|].
-        unfold flush in Hin. apply in_map_iff in Hin as (m0 & E & _). now injection E as <- _.
+        unfold flush in Hin. apply in_map_iff in Hin as (m0 & E & _). now injection E as <- _. }
+    destruct (queue_closes s); [|exact S5].
+    (* the queue closes the connection: the session attached a moment ago (of backend b) is closed *)
+    destruct S5 as [T5 L5].
+    assert (Hcb : cb b h5 c).
+    { intros cn1 x Hc1 Hx. rewrite E5c, aget_aset_same in Hc1. injection Hc1 as <-. cbn in Hx. injection Hx as <-.
+      exists s1. split; [unfold get_sess; rewrite E5s; apply aget_aset_same|exact Hb]. }
+    pose proof (ti_close_conn h5 c T5) as T6.
+    pose proof (loc_bind b (Some c) h (h5, outs5) (close_conn h5 c) L5 (loc_close_conn b (Some c) h5 c T5 Hcb)) as L6.
+    destruct (close_conn h5 c) as [h6 o6]. cbn [fst snd] in *. split; [exact T6|exact L6].
 Qed.
 
 (* ------------------------------------------------------------------ virtual sessions *)
